@@ -162,7 +162,7 @@ fn doomed_tags(b: &umya::Spreadsheet, twin: Option<&Twin>, op: &Op) -> BTreeSet<
 
 pub fn op_sheet_index(op: &Op) -> Option<usize> {
     match op {
-        Op::SetText { sheet, .. } | Op::SetRich { sheet, .. } | Op::SetNum { sheet, .. } | Op::SetBool { sheet, .. } | Op::SetBlank { sheet, .. } | Op::RemoveCell { sheet, .. } | Op::SheetRemoveRow { sheet, .. } | Op::SheetRemoveCol { sheet, .. } | Op::RemoveSheet { sheet } | Op::EditComment { sheet, .. } | Op::Comment { sheet, .. } | Op::CommentRich { sheet, .. } => Some(*sheet),
+        Op::SetText { sheet, .. } | Op::SetRich { sheet, .. } | Op::SetNum { sheet, .. } | Op::SetBool { sheet, .. } | Op::SetBlank { sheet, .. } | Op::RemoveCell { sheet, .. } | Op::SheetRemoveRow { sheet, .. } | Op::SheetRemoveCol { sheet, .. } | Op::RemoveSheet { sheet, .. } | Op::EditComment { sheet, .. } | Op::Comment { sheet, .. } | Op::CommentRich { sheet, .. } => Some(*sheet),
         _ => None,
     }
 }
@@ -238,7 +238,7 @@ fn doomed_in_sheet(b: &umya::Spreadsheet, op: &Op) -> BTreeSet<String> {
         }
         Op::SheetRemoveRow { sheet, row, n: cnt } => cell_tags(&sheets[*sheet % n], &|_, r| r >= *row && r < *row + *cnt, &mut out),
         Op::SheetRemoveCol { sheet, col, n: cnt } => cell_tags(&sheets[*sheet % n], &|c, _| c >= *col && c < *col + *cnt, &mut out),
-        Op::RemoveSheet { sheet } => {
+        Op::RemoveSheet { sheet, .. } => {
             if n > 1 {
                 let ws = &sheets[*sheet % n];
                 if umya::verif_hooks::is_deserialized(ws) {
@@ -578,7 +578,7 @@ pub fn cases(run_seed: u64, tier: &str, _scratch: &str) -> Vec<Value> {
                         0 => Op::SetBlank { sheet, cell },
                         1 => Op::SheetRemoveRow { sheet, row: 1 + wl.below(8) as u32, n: 1 + wl.below(3) as u32 },
                         2 => Op::SheetRemoveCol { sheet, col: 1 + wl.below(5) as u32, n: 1 + wl.below(3) as u32 },
-                        3 => Op::RemoveSheet { sheet },
+                        3 => Op::RemoveSheet { sheet, by_name: wl.chance(1, 2) },
                         _ => Op::RemoveCell { sheet, cell },
                     };
                     Step::Op { h, op }
